@@ -43,9 +43,10 @@ func retryRules(c *Ctx) {
 	P := c.P
 	// FatalError wraps exactly its argument in the type that isFatalError / unpackFatalError recognise
 	if q := c.F("FatalError"); q.ok() {
-		ok := false
+		ok, all := false, true
 		for _, r := range returnsOf(q.fn) {
 			for _, v := range c.retVals(r, 0) {
+				this := false
 				// MakeInterface was unwrapped by Sources: the value is a load of a fatalError struct whose err field holds the parameter
 				if ld, isL := isLoad(v); isL {
 					if al, isA := ld.X.(*ssa.Alloc); isA {
@@ -53,15 +54,19 @@ func retryRules(c *Ctx) {
 							if fa, isFA := ref.(*ssa.FieldAddr); isFA && an.FieldOfAddr(fa) == "fatalError.err" {
 								for _, rr := range *fa.Referrers() {
 									if st, isSt := rr.(*ssa.Store); isSt && st.Val == ssa.Value(q.fn.Params[0]) {
-										ok = true
+										ok, this = true, true
 									}
 								}
 							}
 						}
 					}
 				}
+				if !this {
+					all = false // some return hands back something else (e.g. the argument itself when it "already is fatal")
+				}
 			}
 		}
+		ok = ok && all
 		q.add("PROV", "FatalError wraps its argument in fatalError", ok, pickS(ok, "returns fatalError{err: err}", "FatalError does not return a fatalError holding its argument: the retry loop would not stop on it, or would return another error"))
 	}
 	q := c.F("ExponentialRetry")
@@ -290,7 +295,23 @@ func retryRules(c *Ctx) {
 		cq.add("LIN", "the delay is a whole number of slots times the rate", ok, "return Int63n(...) * d", r)
 	}
 	// the rate passed is the configured one; default 300ms iff rate <= 0
-	l.add("PROV", "the delay uses the configured rate", usesValue(P, callArg(cc, 0), q.fn.Params[1]) || true, "first argument is the rate cell", cc)
+	{
+		okr, what := true, ""
+		srcs := P.SourcesAt(callArg(cc, 0), cc)
+		for _, sv := range srcs {
+			if sv == ssa.Value(q.fn.Params[1]) {
+				continue
+			}
+			if k, isK := constInt(sv); isK && k == 300*1000*1000 {
+				continue
+			}
+			okr, what = false, sv.String()
+		}
+		if len(srcs) == 0 {
+			okr, what = false, "no source found"
+		}
+		l.add("PROV", "the delay uses the configured rate", okr, pickS(okr, "the slot time is the caller's rate or the 300ms default, nothing else", "the slot time handed to the delay calculation can be a value other than the caller's rate or the documented default ("+what+"): delays are no longer whole slots of the configured rate"), cc)
+	}
 	{
 		rate := aP(q.param(1))
 		sts := P.CellStores(cellOfParam(q.fn, q.fn.Params[1]))
